@@ -75,7 +75,7 @@ Fixpoint dscan (strict : bool) (f : func) (C : cert) (Q : qcert) (asz : Z -> Z) 
       else
         is_nop i' && null (i_outs i) && deletable (i_op i)
         && match deleted_items F asz i with
-           | Some ls => dscan strict f C Q asz (pfacts_step F asz i) (ls ++ P) t t'
+           | Some ls => dscan strict f C Q asz (pfacts_step F asz i) (ls ++ P)%list t t'
            | None => false
            end
   | _, _ => false
@@ -92,7 +92,7 @@ Definition dse_check_with (strict : bool) (f f' : func) (C : cert) (Q : qcert) :
 
 (* ------------------------------------------------------------------ inference of Q (not trusted) *)
 Definition add_items (P Q0 : list pitem) : list pitem :=
-  fold_left (fun q x => if has_item x q then q else q ++ [x]) P Q0.
+  fold_left (fun q x => if has_item x q then q else (q ++ [x])%list) P Q0.
 
 Fixpoint dflow (f : func) (asz : Z -> Z) (F : list fact) (P : list pitem) (l l' : list inst) (acc : qcert) : qcert :=
   match l, l' with
@@ -102,7 +102,7 @@ Fixpoint dflow (f : func) (asz : Z -> Z) (F : list fact) (P : list pitem) (l l' 
         dflow f asz (pfacts_step F asz i) (filter (fun x => negb (covered F asz i x)) P) t t' acc'
       else
         match deleted_items F asz i with
-        | Some ls => dflow f asz (pfacts_step F asz i) (ls ++ P) t t' acc
+        | Some ls => dflow f asz (pfacts_step F asz i) (ls ++ P)%list t t' acc
         | None => acc
         end
   | _, _ => acc
